@@ -915,7 +915,7 @@ def native_effects(prog, jobs=None, force=False):
         out = {e.op: e for e in effs}
         # value-dependent words: measure per literal found at the call sites
         for e in effs:
-            if e.proved or "not constant" not in e.note:
+            if e.proved or not ("not constant" in e.note or "EFF range" in e.note):
                 continue
             lits = set()
             ok = True
@@ -1033,6 +1033,8 @@ def site_effect(prog, effects, waddr, k):
     m = re.search(r"per-literal: (\{.*\})", e.note or "")
     if m:
         tab = json.loads(m.group(1))
+        if e.delta is None and len(set(v[0] for v in tab.values())) != 1:
+            pass
         v = literal_before(prog, waddr, k)
         if v is not None and str(v) in tab:
             d, need, peak = tab[str(v)]
@@ -1265,7 +1267,7 @@ def stack_system(prog, effects=None, resume_after_fail=False):
         o2 = _z3("\n".join(L2 + A2) + "\n(assert (and %s))\n(check-sat)\n" % " ".join(safe))
         res["interval_bounds_exist"] = (o2.split() or ["error"])[0]
     for e in effects.values():
-        if e.note and "not constant" in e.note and e.op in prog.used_natives():
+        if e.note and ("not constant" in e.note or "EFF range" in e.note or "per-literal" in e.note) and e.op in prog.used_natives():
             sites = []
             for (wa, k) in prog.call_sites(e.op):
                 sites.append({"word": wa, "ip": prog.words[wa].ins[k].ip, "literal": literal_before(prog, wa, k)})
@@ -1355,7 +1357,6 @@ ADDR_OPERANDS = {
     "read-chunk-native": [(1, ("pos", 0))],
     "write-blob-chunk": [(1, ("pos", 0))],
     "strlen": [(0, 1)],
-    "copy-hash-CV": [(0, 64)],
 }
 
 
@@ -1523,9 +1524,14 @@ def gen_preconditions(prog, effects=None):
     lits = literal_top_sets(prog)
     desc = {"regions": regs, "literal_operands": {}, "address_natives": {}}
     o = ["/* GENERATED by t0tool.gen_preconditions from the bytecode of %s */\n" % prog.rel]
+    fkind = {f.path: f for f in layout(prog)}
+    o.append("/* array regions: address arithmetic of the T0 code stays inside these */\n")
     o.append("static int\nc05_in_region(uint32_t addr, uint32_t len)\n{\n")
     for r in regs:
         if r["field"] is None:
+            continue
+        fk = fkind.get(r["field"])
+        if fk is None or fk.kind == "S" or fk.kind == "P" or fk.size <= 8:
             continue
         o.append("\tif (addr >= %du && len <= %du && addr - %du <= %du - len) return 1;   /* %s (%s): %s */\n" % (
             r["addr"], r["len"], r["addr"], r["len"], r["field"], r["expr"], r["how"]))
@@ -1560,6 +1566,17 @@ def gen_preconditions(prog, effects=None):
                 e = "C05_TOP(%d)" % ext[1] if isinstance(ext, tuple) else "%du" % ext
                 depth = max(depth, pos + 1, (ext[1] + 1) if isinstance(ext, tuple) else 0)
                 c = "c05_in_region(C05_TOP(%d), %s)" % (pos, e)
+                if pos == 0 and not isinstance(ext, tuple):
+                    # scalar accessors: exactly the literal addresses used at their call sites,
+                    # array regions only if some call site computes its address
+                    sites = prog.call_sites(n.op)
+                    lv = sorted(set(literal_before(prog, w_, k_) & 0xFFFFFFFF for (w_, k_) in sites if literal_before(prog, w_, k_) is not None))
+                    nonlit = any(literal_before(prog, w_, k_) is None for (w_, k_) in sites)
+                    alts = ["C05_TOP(0) == %du" % v for v in lv]
+                    if nonlit or not sites:
+                        alts.append(c)
+                    c = "(" + " || ".join(alts) + ")"
+                    al.append({"literal_addresses": lv, "computed_address_sites": sum(1 for (w_, k_) in sites if literal_before(prog, w_, k_) is None)})
                 if len(ent) > 2 and ent[2] == "or0":
                     if isinstance(ext, tuple) and addr_zero_or_len_nonzero(prog, n.op):
                         c = "(C05_TOP(%d) == 0 || (C05_TOP(%d) != 0 && %s))" % (pos, ext[1], c)
